@@ -6,6 +6,10 @@ and parsed by a small recursive-descent parser for a *closed* subset of Rust, an
 a Gallina definition over the vocabulary of SpadeV.Num.F64 / SpadeV.Gen.Prelude.
 Anything outside the subset is a hard error naming the construct; there is no fallback.
 
+Stage 2 (kind 'dcelfn' in SPEC, class DcelEmit): the loop-free DCEL primitives of dcel_operations.rs are
+translated statement by statement, in state-passing style, against the API of Dcel/Raw.v into Gen/DcelOps.v;
+parameters and result type are derived from the Rust signature.
+
 usage: rs2v.py <repo-root> <out-dir>      (writes <out-dir>/<Name>.v, only when changed)
 """
 import re, sys, os, struct
@@ -177,7 +181,29 @@ class P:
                 self.eat(';')
                 stmts.append(('assert', c))
                 continue
+            if self.peek()[1] in ('assert_eq!', 'debug_assert_eq!', 'assert_ne!', 'debug_assert_ne!'):
+                op = '==' if self.next()[1].endswith('eq!') else '!='
+                self.eat('(')
+                a = self.expr()
+                self.eat(',')
+                b = self.expr()
+                while self.opt(','):
+                    if self.at(')'):
+                        break
+                    if self.peek()[0] == 'str':
+                        self.next()
+                    else:
+                        self.expr()
+                self.eat(')')
+                self.eat(';')
+                stmts.append(('assert', ('bin', op, a, b)))
+                continue
             e = self.expr()
+            if self.opt('='):                      # assignment statement  `place = value;`
+                rhs = self.expr()
+                self.eat(';')
+                stmts.append(('assign', e, rhs))
+                continue
             if self.opt(';'):
                 stmts.append(('expr', e))
                 continue
@@ -231,6 +257,8 @@ class P:
         lhs = self.expr(lvl + 1, nostruct)
         while self.peek()[0] == 'op' and self.peek()[1] in self.BIN[lvl]:
             op = self.next()[1]
+            if self.at('=') and op not in ('==', '!=', '<', '>', '<=', '>=', '&&', '||'):
+                raise TransError("compound assignment `%s=` is outside the translated subset" % op)
             rhs = self.expr(lvl + 1, nostruct)
             lhs = ('bin', op, lhs, rhs)
         return lhs
@@ -244,7 +272,7 @@ class P:
             self.opt('mut')
             return self.unary(nostruct)
         if self.opt('*'):
-            return self.unary(nostruct)
+            return ('deref', self.unary(nostruct))
         return self.postfix(self.primary(nostruct), nostruct)
 
     def args(self):
@@ -293,6 +321,8 @@ class P:
             return ('float', v)
         if k == 'int':
             return ('int', re.sub(r"_?(usize|u32|u64|i32|i64)$", "", v))
+        if k == 'str':
+            return ('str', v)
         if v == '(':
             if self.opt(')'):
                 return ('unit',)
@@ -335,6 +365,9 @@ class P:
             b = self.block('}')
             self.eat('}')
             return b
+        if k == 'id' and v in ('for', 'while', 'loop', 'match', 'unsafe', 'move', 'break', 'continue', 'fn',
+                               'struct', 'impl', 'use', 'const', 'static'):
+            raise TransError("`%s` is outside the translated subset" % v)
         if k == 'id':
             path = [v]
             while self.at('::'):
@@ -349,7 +382,11 @@ class P:
             if self.at('{') and not nostruct and path[-1][0].isupper():
                 self.next()
                 fields = []
+                base = None
                 while not self.at('}'):
+                    if self.opt('..'):             # functional update  `..base`  (must be last)
+                        base = self.expr()
+                        break
                     fname = self.next()[1]
                     if self.opt(':'):
                         fe = self.expr()
@@ -359,6 +396,8 @@ class P:
                     if not self.opt(','):
                         break
                 self.eat('}')
+                if base is not None:
+                    return ('structb', path, fields, base)
                 return ('struct', path, fields)
             return ('path', path)
         raise TransError("unsupported token %r" % v)
@@ -391,6 +430,8 @@ class Emit:
             return x[1] if self.dom == 'nat' else "(%s)%%Z" % x[1]
         if k == 'unit':
             return "tt"
+        if k == 'deref':
+            return self.e(x[1])
         if k == 'path':
             name = '::'.join(x[1])
             if name in self.voc['paths']:
@@ -488,6 +529,8 @@ class Emit:
                     raise TransError("expression statement without effect in the subset")
             elif st[0] == 'assert':
                 out = "(if %s then %s else %s)" % (self.e(st[1]), out, self.voc['panic'])
+            else:
+                raise TransError("statement kind `%s` is outside the pure subset" % st[0])
         return out
 
     def pat(self, p):
@@ -498,6 +541,601 @@ class Emit:
         if p[0] == 'arr':
             raise TransError("array pattern")
         raise TransError("pattern")
+
+# ----------------------------------------------------------------------------- stage 2: DCEL primitives
+# The loop-free primitives of dcel_operations.rs are translated in state-passing style against the API
+# of Dcel/Raw.v: the Rust `dcel: &mut Dcel` is the Gallina variable `dcel`; every mutating statement
+# rebinds it (`let dcel := set_next dcel h e in`), every read uses the current binding, statements are
+# emitted strictly in source order.  Values are typed while translating (a small re-check of what
+# rustc already checked; it makes method/field resolution unambiguous and errors precise):
+#   'vh' 'eh' 'uh' 'fh'   vertex / directed edge / undirected edge / face handle, fixed or dynamic
+#                         (all rendered as `nat`; a dynamic handle is its index, its navigation
+#                          methods read the current `dcel` -- sound because the borrow checker
+#                          forbids a mutation while a dynamic handle or an entry reference is alive)
+#   'nat' usize   'bool'   'unit'   'vdata' (the vertex payload V)   'default' (X::default())
+#   'hrec' HalfEdgeEntry   'edge' EdgeEntry = hrec * hrec   'face' FaceEntry = option nat
+#   'vent' VertexEntry = vdata * option nat      ('opt', T)      ('tup', (T1, .., Tn))  (arrays [T; 2] too)
+# Anything not listed in the tables below is a TransError.
+D_HANDLES = ('vh', 'eh', 'uh', 'fh')
+D_RUST_TYPES = {'FixedVertexHandle': 'vh', 'FixedDirectedEdgeHandle': 'eh', 'FixedUndirectedEdgeHandle': 'uh',
+                'FixedFaceHandle': 'fh', 'V': 'vdata', 'Dcel': 'dcel', 'usize': 'nat', 'bool': 'bool'}
+D_PATHS = {'OUTER_FACE_HANDLE': ('0', 'fh'), 'None': ('None', ('opt', None))}
+D_DYN = {'directed_edge': 'eh', 'vertex': 'vh'}                 # dcel.directed_edge(h): dynamic handle = index
+D_COUNTS = ('num_vertices', 'num_undirected_edges', 'num_directed_edges', 'num_faces')
+D_VECS = {'vertices': 'num_vertices', 'edges': 'num_undirected_edges', 'faces': 'num_faces'}
+H_FIELDS = {'next': ('h_next', 'eh', 'set_next'), 'prev': ('h_prev', 'eh', 'set_prev'),
+            'face': ('h_face', 'fh', 'set_face'), 'origin': ('h_org', 'vh', 'set_origin')}
+H_ORDER = ['next', 'prev', 'face', 'origin']                    # argument order of `mkh`
+D_METHODS = {                                                   # (receiver type, method) -> (format | None = identity, type)
+    ('eh', 'next'): ('(e_next dcel %s)', 'eh'), ('eh', 'prev'): ('(e_prev dcel %s)', 'eh'),
+    ('eh', 'rev'): ('(e_rev %s)', 'eh'), ('eh', 'from'): ('(e_origin dcel %s)', 'vh'),
+    ('eh', 'to'): ('(e_to dcel %s)', 'vh'), ('eh', 'face'): ('(e_face dcel %s)', 'fh'),
+    ('eh', 'as_undirected'): ('(as_undirected %s)', 'uh'),
+    ('uh', 'as_directed'): ('(normalized %s)', 'eh'), ('uh', 'normalized'): ('(normalized %s)', 'eh'),
+    ('uh', 'not_normalized'): ('(not_normalized %s)', 'eh'),
+    ('vh', 'out_edge'): ('(v_out_edge dcel %s)', ('opt', 'eh')),
+}
+for _h in D_HANDLES:
+    D_METHODS[(_h, 'fix')] = (None, _h)
+    D_METHODS[(_h, 'adjust_inner_outer')] = (None, _h)
+    D_METHODS[(_h, 'index')] = (None, 'nat')
+D_CALLS = {                                                     # path -> (argument types, format | None, type)
+    'FixedDirectedEdgeHandle::new_normalized': (['nat'], '(normalized %s)', 'eh'),
+    'FixedUndirectedEdgeHandle::new': (['nat'], None, 'uh'),
+    'FixedFaceHandle::new': (['nat'], None, 'fh'),
+    'FixedVertexHandle::new': (['nat'], None, 'vh'),
+    'DE::default': ([], 'tt', 'default'), 'UE::default': ([], 'tt', 'default'),
+    'F::default': ([], 'tt', 'default'), 'Default::default': ([], 'tt', 'default'),
+}
+D_NAT_CMP = {'<': 'Nat.ltb %s %s', '<=': 'Nat.leb %s %s', '>': 'Nat.ltb %(b)s %(a)s', '>=': 'Nat.leb %(b)s %(a)s'}
+D_RESERVED = set("""dcel dcel0 prim_panic half_edge e_next e_prev e_face e_origin e_rev e_to normalized not_normalized
+  as_undirected v_out_edge f_adjacent set_half_edge set_next set_prev set_face set_origin set_out_edge
+  set_adjacent_edge push_edge push_face push_vertex num_vertices num_undirected_edges num_directed_edges
+  num_faces mkh h_next h_prev h_face h_org mkvd fst snd negb andb orb Some None tt nat bool unit vdata Nat Raw
+  if then else let in match with end fun forall exists fix cofix as at return where using Type Prop Set
+  struct for IF mod to from type""".split())
+
+def d_is_dcel(x):
+    return x == ('path', ['dcel'])
+
+def d_vec_of(x):
+    """`dcel.vertices` / `dcel.edges` / `dcel.faces` -> the field name, else None."""
+    if x[0] == 'field' and d_is_dcel(x[1]) and x[2] in D_VECS:
+        return x[2]
+    return None
+
+def d_hem(x):
+    """`dcel.half_edge_mut(h)` -> the AST of h, else None."""
+    if x[0] == 'mcall' and d_is_dcel(x[1]) and x[2] == 'half_edge_mut' and len(x[3]) == 1:
+        return x[3][0]
+    return None
+
+def d_mutates(x):
+    """Does the AST contain an assignment or a `.push(..)`?"""
+    if isinstance(x, tuple):
+        if x and x[0] == 'assign':
+            return True
+        if x and x[0] == 'mcall' and x[2] == 'push':
+            return True
+        return any(d_mutates(y) for y in x)
+    if isinstance(x, list):
+        return any(d_mutates(y) for y in x)
+    return False
+
+def d_tystr(t):
+    if isinstance(t, tuple):
+        if t[0] == 'opt':
+            return "Option<%s>" % d_tystr(t[1])
+        return "(%s)" % ', '.join(d_tystr(u) for u in t[1])
+    return str(t)
+
+def d_unify(a, b, what):
+    """Types must agree (Option<?> from `None` agrees with every Option)."""
+    if a == b:
+        return a
+    if isinstance(a, tuple) and isinstance(b, tuple) and a[0] == b[0]:
+        if a[0] == 'opt':
+            if a[1] is None:
+                return b
+            if b[1] is None:
+                return a
+            return ('opt', d_unify(a[1], b[1], what))
+        if len(a[1]) == len(b[1]):
+            return ('tup', tuple(d_unify(u, v, what) for u, v in zip(a[1], b[1])))
+    raise TransError("%s: type %s where %s is expected" % (what, d_tystr(a), d_tystr(b)))
+
+def d_coq_ty(t):
+    if t in D_HANDLES or t == 'nat':
+        return 'nat'
+    if t in ('bool', 'unit', 'vdata'):
+        return t
+    if isinstance(t, tuple) and t[0] == 'tup':
+        return "(%s)" % ' * '.join(d_coq_ty(u) for u in t[1])
+    raise TransError("type %s cannot appear in a primitive's signature" % d_tystr(t))
+
+def d_coq_default(t):
+    if t in D_HANDLES or t == 'nat':
+        return '0'
+    if t == 'bool':
+        return 'false'
+    if t == 'unit':
+        return 'tt'
+    if isinstance(t, tuple) and t[0] == 'tup':
+        return "(%s)" % ', '.join(d_coq_default(u) for u in t[1])
+    raise TransError("no default result for type %s" % d_tystr(t))
+
+def d_skip_generics(p):
+    depth = 1
+    while depth:
+        k, v = p.next()
+        if k == 'eof':
+            raise TransError("unbalanced generics")
+        if v == '<':
+            depth += 1
+        elif v == '>':
+            depth -= 1
+        elif v == '>>':
+            depth -= 2
+
+def d_rust_type(p):
+    if p.opt('&'):
+        p.opt('mut')
+        return ('ref', d_rust_type(p))
+    if p.opt('('):
+        items = []
+        while not p.at(')'):
+            items.append(d_rust_type(p))
+            if not p.opt(','):
+                break
+        p.eat(')')
+        return ('tup', tuple(items)) if items else 'unit'
+    if p.opt('['):
+        t = d_rust_type(p)
+        p.eat(';')
+        k, n = p.next()
+        p.eat(']')
+        if k != 'int' or n != '2':
+            raise TransError("array type of length %s (only [T; 2] is in the subset)" % n)
+        return ('tup', (t, t))
+    k, v = p.next()
+    if k != 'id' or v not in D_RUST_TYPES:
+        raise TransError("type %s is outside the DCEL vocabulary" % v)
+    if p.opt('<'):
+        d_skip_generics(p)
+    return D_RUST_TYPES[v]
+
+def parse_dcel_sig(sig):
+    """`fn name<..>(dcel: &mut Dcel<..>, a: T, ..) -> R [where ..]`  ->  ([(a, type)], R)."""
+    p = P(tokenize(sig))
+    p.eat('fn')
+    p.next()
+    if p.opt('<'):
+        d_skip_generics(p)
+    p.eat('(')
+    params = []
+    while not p.at(')'):
+        k, name = p.next()
+        if k != 'id' or name == 'mut':
+            raise TransError("parameter pattern %r" % name)
+        p.eat(':')
+        params.append((name, d_rust_type(p)))
+        if not p.opt(','):
+            break
+    p.eat(')')
+    ret = d_rust_type(p) if p.opt('->') else 'unit'
+    if not (p.peek()[0] == 'eof' or p.at('where')):
+        raise TransError("unexpected %r after the signature" % p.peek()[1])
+    if not params or params[0] != ('dcel', ('ref', 'dcel')):
+        raise TransError("first parameter must be `dcel: &mut Dcel<..>`")
+    for name, ty in params[1:]:
+        if not (ty in D_HANDLES or ty == 'vdata'):
+            raise TransError("parameter %s: type %s" % (name, d_tystr(ty)))
+    return params[1:], ret
+
+class DcelEmit:
+    def __init__(self, ret):
+        self.ret = ret
+        self.used_panic = False
+
+    # ---- names
+    def bind(self, name, ty, env):
+        if name == '_':
+            return '_'
+        if name == 'dcel' or not re.match(r"^[a-z_][a-z0-9_]*$", name):
+            raise TransError("cannot bind the name `%s`" % name)
+        coq = name + '_' if name in D_RESERVED else name
+        for other, (c, _) in env.items():
+            if c == coq and other != name:
+                raise TransError("variable names %s / %s collide after renaming" % (name, other))
+        env[name] = (coq, ty)
+        return coq
+
+    def bindpat(self, pat, ty, env):
+        if pat[0] == 'var':
+            return self.bind(pat[1], ty, env)
+        names = pat[1]                                # 'tup' and 'arr' patterns: both are pairs
+        if not (isinstance(ty, tuple) and ty[0] == 'tup' and len(ty[1]) == len(names)):
+            raise TransError("pattern (%s) against a value of type %s" % (', '.join(names), d_tystr(ty)))
+        return "(%s)" % ', '.join(self.bind(n, t, env) for n, t in zip(names, ty[1]))
+
+    def panic(self):
+        self.used_panic = True
+        return "(prim_panic dcel0 %s)" % d_coq_default(self.ret)
+
+    # ---- expressions: (Gallina text, type); they only read the current `dcel`
+    def typed(self, x, env, want, what):
+        t, ty = self.ex(x, env)
+        d_unify(ty, want, what)
+        return t
+
+    def hrec_lit(self, x, env):
+        fields = x[2]
+        base = self.typed(x[3], env, 'hrec', "struct base") if x[0] == 'structb' else None
+        d = {}
+        for f, fe in fields:
+            if f not in H_FIELDS or f in d:
+                raise TransError("HalfEdgeEntry: field %s" % f)
+            d[f] = self.typed(fe, env, H_FIELDS[f][1], "HalfEdgeEntry.%s" % f)
+        out = []
+        for f in H_ORDER:
+            if f in d:
+                out.append(d[f])
+            elif base is not None:
+                out.append("(%s %s)" % (H_FIELDS[f][0], base))
+            else:
+                raise TransError("HalfEdgeEntry: field %s missing" % f)
+        return "(mkh %s)" % ' '.join(out)
+
+    def fields_exactly(self, x, names):
+        if x[0] != 'struct':
+            raise TransError("`..base` in %s" % x[1][-1])
+        d = dict(x[2])
+        if len(d) != len(x[2]) or sorted(d) != sorted(names):
+            raise TransError("%s: fields %s" % (x[1][-1], sorted(f for f, _ in x[2])))
+        return d
+
+    def edge_lit(self, x, env):
+        """EdgeEntry::new(a, b)  /  EdgeEntry { entries: [a, b], <default data> }  ->  (a, b), else None."""
+        if x[0] == 'call' and x[1] == ['EdgeEntry', 'new']:
+            if len(x[2]) != 2:
+                raise TransError("EdgeEntry::new with %d arguments" % len(x[2]))
+            return tuple(self.typed(a, env, 'hrec', "EdgeEntry::new") for a in x[2])
+        if x[0] in ('struct', 'structb') and x[1] == ['EdgeEntry']:
+            d = self.fields_exactly(x, ['entries', 'directed_data', 'undirected_data'])
+            # the per-edge data must be the defaults: Raw.push_edge appends the flag `false`
+            dd = d['directed_data']
+            if dd[0] == 'array' and len(dd[1]) == 2:
+                for y in dd[1]:
+                    self.typed(y, env, 'default', "EdgeEntry.directed_data")
+            else:
+                self.typed(dd, env, 'default', "EdgeEntry.directed_data")
+            self.typed(d['undirected_data'], env, 'default', "EdgeEntry.undirected_data")
+            en = d['entries']
+            if en[0] != 'array' or len(en[1]) != 2:
+                raise TransError("EdgeEntry.entries must be a two-element array literal")
+            return tuple(self.typed(a, env, 'hrec', "EdgeEntry.entries") for a in en[1])
+        return None
+
+    def vent_lit(self, x, env):
+        if x[0] in ('struct', 'structb') and x[1] == ['VertexEntry']:
+            d = self.fields_exactly(x, ['data', 'out_edge'])
+            return (self.typed(d['data'], env, 'vdata', "VertexEntry.data"),
+                    self.typed(d['out_edge'], env, ('opt', 'eh'), "VertexEntry.out_edge"))
+        return None
+
+    def edge_parts(self, x, env):
+        lit = self.edge_lit(x, env)
+        if lit is not None:
+            return lit
+        t = self.typed(x, env, 'edge', "dcel.edges.push")
+        return "(fst %s)" % t, "(snd %s)" % t
+
+    def vent_parts(self, x, env):
+        lit = self.vent_lit(x, env)
+        if lit is not None:
+            return lit
+        t = self.typed(x, env, 'vent', "dcel.vertices.push")
+        return "(fst %s)" % t, "(snd %s)" % t
+
+    def ex(self, x, env):
+        k = x[0]
+        if k == 'int':
+            return x[1], 'nat'
+        if k == 'unit':
+            return 'tt', 'unit'
+        if k == 'deref':
+            return self.ex(x[1], env)
+        if k == 'path':
+            name = '::'.join(x[1])
+            if name == 'dcel':
+                raise TransError("`dcel` used as a value")
+            if name in env:
+                return env[name]
+            if name in D_PATHS:
+                return D_PATHS[name]
+            raise TransError("unknown path %s" % name)
+        if k == 'not':
+            return "(negb %s)" % self.typed(x[1], env, 'bool', "operand of !"), 'bool'
+        if k == 'bin':
+            op = x[1]
+            a, aty = self.ex(x[2], env)
+            b, bty = self.ex(x[3], env)
+            if op in ('&&', '||'):
+                d_unify(aty, 'bool', op)
+                d_unify(bty, 'bool', op)
+                return "(%s %s %s)" % ('andb' if op == '&&' else 'orb', a, b), 'bool'
+            if op in ('==', '!='):
+                d_unify(aty, bty, op)
+                if not (aty in D_HANDLES or aty == 'nat'):
+                    raise TransError("%s on values of type %s" % (op, d_tystr(aty)))
+                t = "(Nat.eqb %s %s)" % (a, b)
+                return (t if op == '==' else "(negb %s)" % t), 'bool'
+            if op == '+':                               # usize addition (no overflow at these sizes)
+                d_unify(aty, 'nat', op)
+                d_unify(bty, 'nat', op)
+                return "(%s + %s)" % (a, b), 'nat'
+            if op in ('<', '<=', '>', '>='):
+                d_unify(aty, 'nat', op)
+                d_unify(bty, 'nat', op)
+                if op in ('>', '>='):
+                    a, b = b, a
+                return "(%s %s %s)" % ('Nat.ltb' if op in ('<', '>') else 'Nat.leb', a, b), 'bool'
+            raise TransError("operator %s is not in the DCEL vocabulary" % op)
+        if k == 'field':
+            recv, name = x[1], x[2]
+            if recv[0] == 'index':
+                vec = d_vec_of(recv[1])
+                if vec is None:
+                    raise TransError("indexing something other than dcel.vertices / dcel.faces")
+                i = self.typed(recv[2], env, 'nat', "index")
+                if (vec, name) == ('faces', 'adjacent_edge'):
+                    return "(f_adjacent dcel %s)" % i, ('opt', 'eh')
+                if (vec, name) == ('vertices', 'out_edge'):
+                    return "(v_out_edge dcel %s)" % i, ('opt', 'eh')
+                raise TransError("dcel.%s[..].%s is not in the vocabulary" % (vec, name))
+            t, ty = self.ex(recv, env)
+            if ty == 'hrec' and name in H_FIELDS:
+                return "(%s %s)" % (H_FIELDS[name][0], t), H_FIELDS[name][1]
+            raise TransError("field .%s of a value of type %s" % (name, d_tystr(ty)))
+        if k == 'mcall':
+            recv, name, args = x[1], x[2], x[3]
+            if d_is_dcel(recv):
+                if name in ('half_edge', 'half_edge_mut') and len(args) == 1:
+                    return "(half_edge dcel %s)" % self.typed(args[0], env, 'eh', "dcel.%s" % name), 'hrec'
+                if name in D_DYN and len(args) == 1:
+                    return self.typed(args[0], env, D_DYN[name], "dcel.%s" % name), D_DYN[name]
+                if name in D_COUNTS and not args:
+                    return "(%s dcel)" % name, 'nat'
+                raise TransError("dcel.%s(%d args) is not in the vocabulary" % (name, len(args)))
+            vec = d_vec_of(recv)
+            if vec is not None:
+                if name == 'len' and not args:
+                    return "(%s dcel)" % D_VECS[vec], 'nat'
+                if name == 'is_empty' and not args:
+                    return "(Nat.eqb (%s dcel) 0)" % D_VECS[vec], 'bool'
+                if name == 'push':
+                    raise TransError("dcel.%s.push(..) in expression position" % vec)
+                raise TransError("dcel.%s.%s() is not in the vocabulary" % (vec, name))
+            if name == 'expect':
+                raise TransError("`.expect(..)` is only translated as the whole right-hand side of a `let`")
+            t, ty = self.ex(recv, env)
+            key = (ty if not isinstance(ty, tuple) else None, name)
+            if key not in D_METHODS or args:
+                raise TransError("method .%s(%d args) on a value of type %s is not in the vocabulary"
+                                 % (name, len(args), d_tystr(ty)))
+            fmt, rty = D_METHODS[key]
+            return (t if fmt is None else fmt % t), rty
+        if k == 'call':
+            name = '::'.join(x[1])
+            if name == 'Some' and len(x[2]) == 1:
+                t, ty = self.ex(x[2][0], env)
+                return "(Some %s)" % t, ('opt', ty)
+            if name == 'EdgeEntry::new':
+                return "(%s, %s)" % self.edge_lit(x, env), 'edge'
+            if name in D_CALLS:
+                tys, fmt, rty = D_CALLS[name]
+                if len(tys) != len(x[2]):
+                    raise TransError("%s with %d arguments" % (name, len(x[2])))
+                ts = tuple(self.typed(a, env, ty, name) for a, ty in zip(x[2], tys))
+                return (ts[0] if fmt is None else fmt % ts), rty
+            raise TransError("call to %s is not in the DCEL vocabulary" % name)
+        if k in ('struct', 'structb'):
+            name = '::'.join(x[1])
+            if name == 'HalfEdgeEntry':
+                return self.hrec_lit(x, env), 'hrec'
+            if name == 'EdgeEntry':
+                return "(%s, %s)" % self.edge_lit(x, env), 'edge'
+            if name == 'VertexEntry':
+                return "(%s, %s)" % self.vent_lit(x, env), 'vent'
+            if name == 'FaceEntry':
+                d = self.fields_exactly(x, ['adjacent_edge', 'data'])
+                self.typed(d['data'], env, 'default', "FaceEntry.data")
+                return self.typed(d['adjacent_edge'], env, ('opt', 'eh'), "FaceEntry.adjacent_edge"), 'face'
+            raise TransError("struct literal %s is not in the DCEL vocabulary" % name)
+        if k in ('tuple', 'array'):
+            if k == 'array' and len(x[1]) != 2:
+                raise TransError("array literal of length %d (only pairs)" % len(x[1]))
+            parts = [self.ex(a, env) for a in x[1]]
+            return "(%s)" % ', '.join(p[0] for p in parts), ('tup', tuple(p[1] for p in parts))
+        if k == 'if':
+            if x[3] is None:
+                raise TransError("`if` without else used as a value")
+            c = self.typed(x[1], env, 'bool', "if condition")
+            a, aty = self.block(x[2], env, 'pure', 0)
+            b, bty = self.block(x[3], env, 'pure', 0)
+            return "(if %s then %s else %s)" % (c, a, b), d_unify(aty, bty, "if branches")
+        if k == 'block':
+            return self.block(x, env, 'pure', 0)
+        raise TransError("expression kind `%s` is outside the DCEL subset" % k)
+
+    # ---- statements
+    def assign(self, st, env):
+        lhs, rhs = st[1], st[2]
+        r, rty = self.ex(rhs, env)
+        if lhs[0] == 'deref' and d_hem(lhs[1]) is not None:                # *dcel.half_edge_mut(h) = entry;
+            h = self.typed(d_hem(lhs[1]), env, 'eh', "half_edge_mut")
+            d_unify(rty, 'hrec', "assignment to *half_edge_mut")
+            return "set_half_edge dcel %s %s" % (h, r)
+        if lhs[0] == 'field' and d_hem(lhs[1]) is not None and lhs[2] in H_FIELDS:   # dcel.half_edge_mut(h).f = v;
+            h = self.typed(d_hem(lhs[1]), env, 'eh', "half_edge_mut")
+            d_unify(rty, H_FIELDS[lhs[2]][1], "assignment to .%s" % lhs[2])
+            return "%s dcel %s %s" % (H_FIELDS[lhs[2]][2], h, r)
+        if lhs[0] == 'field' and lhs[1][0] == 'index' and d_vec_of(lhs[1][1]) is not None:
+            vec, f = d_vec_of(lhs[1][1]), lhs[2]
+            i = self.typed(lhs[1][2], env, 'nat', "index")
+            if (vec, f) == ('vertices', 'out_edge'):                           # dcel.vertices[i].out_edge = o;
+                d_unify(rty, ('opt', 'eh'), "assignment to .out_edge")
+                return "set_out_edge dcel %s %s" % (i, r)
+            if (vec, f) == ('faces', 'adjacent_edge'):                         # dcel.faces[i].adjacent_edge = o;
+                d_unify(rty, ('opt', 'eh'), "assignment to .adjacent_edge")
+                return "set_adjacent_edge dcel %s %s" % (i, r)
+        raise TransError("assignment target is not in the DCEL vocabulary (%s)" % lhs[0])
+
+    def push(self, e, env):
+        vec = d_vec_of(e[1])
+        if len(e[3]) != 1:
+            raise TransError("push with %d arguments" % len(e[3]))
+        a = e[3][0]
+        if vec == 'edges':
+            return "push_edge dcel %s %s" % self.edge_parts(a, env)
+        if vec == 'faces':
+            return "push_face dcel %s" % self.typed(a, env, 'face', "dcel.faces.push")
+        return "push_vertex dcel %s %s" % self.vent_parts(a, env)
+
+    def block(self, b, env, mode, ind):
+        """mode 'top'  : function body, value `(dcel, result)`; asserts / expect / early return allowed
+                'state': nested block that mutates, value `(dcel, v)`
+                'dcel' : nested unit block that mutates, value `dcel`
+                'pure' : nested block without mutation, value `v`.
+           Returns (text, type of v)."""
+        stmts, fin = list(b[1]), b[2]
+        if fin is not None and fin[0] == 'if' and fin[3] is None:      # trailing `if c { .. }` is a statement
+            stmts.append(('expr', fin))
+            fin = None
+        env = dict(env)
+        pad = ' ' * ind
+        lines, closers = [], []
+
+        def no_pure(what):
+            if mode == 'pure':
+                raise TransError("%s inside a block translated as a pure value" % what)
+
+        def top_only(what):
+            if mode != 'top':
+                raise TransError("%s inside a nested block" % what)
+
+        for st in stmts:
+            kind = st[0]
+            if kind == 'let':
+                pat, e = st[1], st[2]
+                if e[0] == 'mcall' and e[2] == 'expect':                 # let x = <option>.expect("..");
+                    top_only("`.expect(..)`")
+                    if len(e[3]) != 1 or e[3][0][0] != 'str':
+                        raise TransError("`.expect` takes one string literal")
+                    t, ty = self.ex(e[1], env)
+                    if not (isinstance(ty, tuple) and ty[0] == 'opt' and ty[1] is not None):
+                        raise TransError("`.expect` on a value of type %s" % d_tystr(ty))
+                    p = self.bindpat(pat, ty[1], env)
+                    lines.append(pad + "match %s with None => %s | Some %s =>" % (t, self.panic(), p))
+                    closers.append(" end")
+                elif e[0] == 'if' and e[3] is not None and (d_mutates(e[2]) or d_mutates(e[3])):
+                    no_pure("a mutating `if`")                          # let p = if c { muts; v } else { muts; w };
+                    c = self.typed(e[1], env, 'bool', "if condition")
+                    a, aty = self.block(e[2], env, 'state', ind + 4)
+                    f, fty = self.block(e[3], env, 'state', ind + 4)
+                    p = self.bindpat(pat, d_unify(aty, fty, "if branches"), env)
+                    lines.append(pad + "let '(dcel, %s) :=\n%s  if %s then (\n%s)\n%s  else (\n%s) in"
+                                 % (p, pad, c, a, pad, f))
+                else:
+                    if d_mutates(e):
+                        raise TransError("mutation inside the right-hand side of a `let` (%s)" % e[0])
+                    t, ty = self.ex(e, env)
+                    p = self.bindpat(pat, ty, env)
+                    lines.append(pad + "let %s%s := %s in" % ("" if pat[0] == 'var' else "'", p, t))
+            elif kind == 'assign':
+                no_pure("an assignment")
+                lines.append(pad + "let dcel := %s in" % self.assign(st, env))
+            elif kind == 'assert':
+                top_only("an assertion")
+                c = self.typed(st[1], env, 'bool', "assertion")
+                lines.append(pad + "if negb %s then %s else" % (c, self.panic()))
+            elif kind == 'expr':
+                e = st[1]
+                if e[0] == 'mcall' and e[2] == 'push' and d_vec_of(e[1]) is not None:
+                    no_pure("a push")
+                    lines.append(pad + "let dcel := %s in" % self.push(e, env))
+                elif e[0] == 'if' and e[3] is None:
+                    c = self.typed(e[1], env, 'bool', "if condition")
+                    if e[2][2] is not None and not (e[2][2][0] == 'if' and e[2][2][3] is None):
+                        top_only("an early `return`")                 # if c { ..; return v; }
+                        a, _ = self.block(e[2], env, 'top', ind + 4)
+                        lines.append(pad + "if %s then (\n%s) else" % (c, a))
+                    else:                                               # if c { mutations }
+                        no_pure("a conditional mutation")
+                        if not d_mutates(e[2]):
+                            raise TransError("`if` statement without effect")
+                        a, _ = self.block(e[2], env, 'dcel', ind + 4)
+                        lines.append(pad + "let dcel := if %s then (\n%s) else dcel in" % (c, a))
+                else:
+                    what = {'mcall': lambda: ".%s(..)" % e[2], 'call': lambda: "%s(..)" % '::'.join(e[1])}
+                    raise TransError("expression statement %s is not a known mutation"
+                                     % what.get(e[0], lambda: "`%s`" % e[0])())
+            else:
+                raise TransError("statement kind `%s`" % kind)
+        if fin is None:
+            v, ty = 'tt', 'unit'
+        else:
+            if d_mutates(fin):
+                raise TransError("mutation inside the result expression")
+            v, ty = self.ex(fin, env)
+        if mode == 'top':
+            d_unify(ty, self.ret, "result")
+            final = "(dcel, %s)" % v
+        elif mode == 'state':
+            final = "(dcel, %s)" % v
+        elif mode == 'dcel':
+            d_unify(ty, 'unit', "value of a statement block")
+            final = "dcel"
+        else:
+            final = v
+        if mode == 'pure' and not lines:
+            return final, ty
+        text = '\n'.join(lines + [pad + final]) + ''.join(reversed(closers))
+        if mode == 'pure':
+            text = "(" + text.strip() + ")"
+        return text, ty
+
+def dcel_function(cname, sig, body):
+    params, ret = parse_dcel_sig(sig)
+    em = DcelEmit(ret)
+    env = {}
+    binders = ["(dcel : dcel)"]
+    for name, ty in params:
+        binders.append("(%s : %s)" % (em.bind(name, ty, env), d_coq_ty(ty)))
+    text, _ = em.block(parse_body(body), env, 'top', 2)
+    if em.used_panic:
+        text = "  let dcel0 := dcel in\n" + text
+    return "Definition %s %s : Raw.dcel * %s :=\n%s.\n" % (cname, ' '.join(binders), d_coq_ty(ret), text)
+
+DCEL_PRELUDE = """From Coq Require Import ZArith List Bool Arith.
+From SpadeV Require Import Obs.State Vmap.Model Dcel.Raw.
+Import ListNotations.
+
+(* State-passing translation of the loop-free primitives of dcel_operations.rs against Dcel/Raw.v.
+   `dcel` is rebound by every mutating statement, in source order; reads use the current binding.
+   Handles (fixed or dynamic) are their `nat` index.
+
+   Panics.  A Rust panic (a failing assert!/assert_eq!/debug_assert!, `.expect` on None) aborts the call;
+   here the function then returns `prim_panic dcel0 default`: the dcel exactly as it was on entry (`dcel0`)
+   together with a default result (0 for handles, pairs of defaults, tt).  Out-of-range Vec indexing is
+   covered by Raw.v (reads return a default, writes are no-ops); theorems carry range preconditions. *)
+Definition prim_panic {R : Type} (d : dcel) (r : R) : dcel * R := (d, r).
+"""
+
+DCEL_OPS = 'src/delaunay_core/dcel_operations.rs'
+DCEL_PRIMS = ['insert_first_vertex', 'insert_second_vertex', 'insert_into_triangle', 'split_edge',
+              'split_half_edge', 'flip_cw', 'create_new_face_adjacent_to_edge',
+              'create_single_face_between_edge_and_next', 'extend_line', 'split_edge_when_all_vertices_on_line']
 
 # ----------------------------------------------------------------------------- vocabularies / SPEC
 FLOAT_BIN = {'<': 'f_lt', '>': 'f_gt', '<=': 'f_le', '>=': 'f_ge', '==': 'f_eq', '!=': 'f_ne',
@@ -546,6 +1184,7 @@ SIZE_VOC = voc_with(MATH_VOC, methods={
     'num_all_faces': 'num_all_faces', 'all_vertices_on_line': 'all_vertices_on_line'})
 
 # (output name, prelude, [items])   item = (kind, source file, rust name, impl, coq name, params, ret type, domain, voc)
+#   kind 'dcelfn': state-passing DCEL primitive; params / ret type are read from the Rust signature (fields unused)
 SPEC = [
  ('Math', """From Coq Require Import ZArith Bool List.
 From SpadeV Require Import Num.F64 Gen.Prelude.
@@ -586,6 +1225,8 @@ From SpadeV Require Import Gen.Prelude.
    ('fn', 'src/triangulation.rs', 'all_vertices_on_line', None, 'all_vertices_on_line', '(self : dcel_sizes)', 'bool', 'nat', SIZE_VOC),
    ('fn', 'src/triangulation.rs', 'convex_hull_size', None, 'convex_hull_size', '(self : dcel_sizes)', 'nat', 'nat', SIZE_VOC),
  ]),
+ ('DcelOps', DCEL_PRELUDE,
+  [('dcelfn', DCEL_OPS, n, None, n, None, None, 'dcel', None) for n in DCEL_PRIMS]),
 ]
 
 SECTION_ORACLE = """Section Oracle.
@@ -621,6 +1262,10 @@ def translate(repo, outdir):
                     report.append((path, rname, 'const'))
                     continue
                 sig, body = find_fn(src, rname, impl)
+                if kind == 'dcelfn':
+                    out.append("(* %s :: %s *)\n%s" % (path, rname, dcel_function(cname, sig, body)))
+                    report.append((path, rname, 'dcelfn'))
+                    continue
                 ast = parse_body(body)
                 em = Emit(dom, voc)
                 text = em.blk(ast)
